@@ -10,13 +10,17 @@ import (
 	"crypto/x509"
 	"crypto/x509/pkix"
 	"encoding/asn1"
+	"encoding/pem"
 	"errors"
 	"fmt"
 	"math/big"
+	"os"
+	"path/filepath"
 	"sync"
 	"time"
 
 	"github.com/notaryproject/notation-core-go/signature"
+	nx509 "github.com/notaryproject/notation-core-go/x509"
 )
 
 type poolCert struct {
@@ -258,6 +262,68 @@ func genC19(r *Runner) {
 			impl["ok"] = 0
 		}
 		r.Submit(&Case{ID: fmt.Sprintf("empty-chain-t%d", ti), K: "trust", In: map[string]any{"chain": []any{}, "trusted": absOf(trusts[ti])}, Impl: impl, Class: "empty-chain"})
+	}
+	// trust lists loaded from files (x509.ReadCertificateFile): every PEM block of the file is a certificate of the list, whatever
+	// its label says and whatever headers it carries — a block silently left out is a trusted certificate that no longer matches
+	{
+		tmp, err := os.MkdirTemp(filepath.Join(os.Getenv("VERIF_ROOT"), ".tmp"), "trustfiles")
+		if err != nil {
+			tmp, err = os.MkdirTemp("", "trustfiles")
+			if err != nil {
+				panic(err)
+			}
+		}
+		defer os.RemoveAll(tmp)
+		labels := []string{"CERTIFICATE", "X509 CERTIFICATE", "TRUSTED CERTIFICATE", "certificate", "CERTIFICATE ", ""}
+		hdrs := []map[string]string{nil, {"friendlyName": "pinned"}, {"Proc-Type": "4,ENCRYPTED"}}
+		fi := 0
+		for _, lab := range labels {
+			for _, hd := range hdrs {
+				for _, tl := range [][]int{{0}, {6, 0}, {0, 6}, {1, 0, 6}, {6}} {
+					for _, oddAt := range []int{0, len(tl) - 1} {
+						// the odd label / headers on one block of the file, plain CERTIFICATE blocks around it
+						var file []byte
+						for bi, p := range tl {
+							blk := &pem.Block{Type: "CERTIFICATE", Bytes: pool[p].der}
+							if bi == oddAt {
+								blk.Type, blk.Headers = lab, hd
+							}
+							file = append(file, pem.EncodeToMemory(blk)...)
+						}
+						fi++
+						path := filepath.Join(tmp, fmt.Sprintf("trust-%d.pem", fi))
+						if err := os.WriteFile(path, file, 0o600); err != nil {
+							panic(err)
+						}
+						loaded, lerr := nx509.ReadCertificateFile(path)
+						for _, ch := range [][]int{{0}, {0, 6}, {3, 6}, {9, 6}} {
+							impl := map[string]any{}
+							switch {
+							case lerr != nil:
+								impl["load_defect"] = fmt.Sprintf("trust_file_of_valid_certificates_refused: label %q headers %v: %v", lab, hd, lerr)
+							case len(loaded) != len(tl):
+								impl["load_defect"] = fmt.Sprintf("trust_file_block_left_out: label %q headers %v: %d certificates from %d blocks", lab, hd, len(loaded), len(tl))
+							default:
+								got, err := signature.VerifyAuthenticity(&signature.SignerInfo{CertificateChain: inst(ch)}, loaded)
+								if err != nil {
+									impl["err"] = trustErrName(err)
+								} else {
+									k := -1
+									for j, t := range loaded {
+										if t == got {
+											k = j
+										}
+									}
+									impl["ok"] = k
+								}
+							}
+							r.Submit(&Case{ID: fmt.Sprintf("file-%d-c%v", fi, ch), K: "trust", In: map[string]any{"chain": absOf(ch), "trusted": absOf(tl)}, Impl: impl,
+								Class: "trust-list-from-file", Replay: map[string]any{"chain": ch, "trusted_file_blocks": tl, "odd_block": oddAt, "label": lab, "headers": hd}})
+						}
+					}
+				}
+			}
+		}
 	}
 	// authentic signing time
 	zero := time.Time{}
